@@ -478,7 +478,7 @@ def _sib(r, v):
     if isinstance(v, bool):
         return [int(v), not v, None, float(v)]
     if isinstance(v, int):
-        return [v + 1, v - 1, float(v) if abs(v) < 2 ** 60 else 0.0, bool(v & 1), str(v), None]
+        return [v + 1, v - 1, float(v) if abs(v) < 2 ** 60 else 0.0, bool(v & 1), str(v) if abs(v) < 10 ** 4000 else "big", None]
     if isinstance(v, float):
         out = [None, 1, "1.0"]
         if v == v and abs(v) != math.inf:
@@ -530,6 +530,7 @@ def perturbations(r, v, depth=0, limit=40):
         out += [v + [r.choice([0, None, "x"])], [r.choice([0, None, "x"])] + v, tuple(v), None]
         # an element followed / preceded by its cross-type twin (anything keyed on == or hash
         # confuses them)
+        keep += [[...] + v, v + [...]] + ([[...] + v + [...]] if v else [[...]])   # the marker object as an ordinary element
         for i in range(min(len(v), 4)):
             for tw in twins(v[i])[:2]:
                 keep.append(v[:i + 1] + [tw] + v[i + 1:])
@@ -669,6 +670,13 @@ VTWINS = [
     ("schema.float(1e15).precision(1)", "1e15 + 0.125"), ("schema.float(-98765.4321).precision(6)", "-98765.432101"),
     ("schema.list(schema.float(1234.5).precision(6))", "[1234.5, 1234.500001]"),
     ("schema.float(1234.5).precision(6)", "1234.5"), ("schema.float(1234.5)", "1234.500001"), ("schema.float(1234.5)", "1234.5000000001"),
+    # a fixed value that sits exactly on a declared bound / length: values the tolerant value comparison lets through
+    # must still meet the bound
+    ("schema.float(1.0).max(1.0)", "1.0000000001"), ("schema.float(1.0).max(1.0)", "1.0000000000000002"), ("schema.float(1.0).min(1.0)", "0.9999999999"),
+    ("schema.float(1.0).min(1.0)", "1.0"), ("schema.float(2.5).min(2.5).max(2.5)", "2.5000000001"), ("schema.float(1.0).precision(2).max(1.0)", "1.004"),
+    ("schema.float(1.0).precision(2).min(1.0)", "0.996"), ("schema.float(1.0).precision(2).max(1.0)", "1.0"),
+    ("schema.list(schema.float(1.0).max(1.0))", "[1.0, 1.0000000001]"), ("schema.dict({'x': schema.float(0.5).min(0.5)})", "{'x': 0.49999999999}"),
+    ("schema.int(5).max(5)", "5"), ("schema.str('ab').len(2)", "'ab'"), ("schema.str('ab').alphabet('ab').contains('a')", "'ab'"),
     # text that is canonically equivalent but not equal (combining characters): compared code point by code point
     ("schema.str.len(5)", "'cafe\u0301'"), ("schema.str.len(4)", "'cafe\u0301'"), ("schema.str('caf\u00e9')", "'cafe\u0301'"),
     ("schema.str('cafe\u0301')", "'caf\u00e9'"), ("schema.str.alphabet('acef\u0301')", "'cafe\u0301'"),
